@@ -28,7 +28,19 @@ def gen_case(rng, root, idx):
         os.makedirs(d)
     sigil = rng.choice(SIGILS)
     nlibs = rng.randint(0, 5)
-    libs = [f"lib{k}.clinc" for k in range(nlibs)]
+    # file names: some are a byte suffix of another (my_lib0.clinc / lib0.clinc) or the same base name in a
+    # sub-directory (sub/lib0.clinc), so a resolver or a bookkeeping set that compares names loosely shows
+    libs = []
+    for k in range(nlibs):
+        name = f"lib{k}.clinc"
+        r = rng.random()
+        if k > 0 and r < 0.25:
+            cand = "my_" + libs[rng.randrange(k)].split("/")[-1]
+            name = cand if cand not in libs else name
+        elif k > 0 and r < 0.4:
+            cand = "sub/" + libs[rng.randrange(k)].split("/")[-1]
+            name = cand if cand not in libs else name
+        libs.append(name)
     # include edges: lib k may include libs with a larger index (acyclic), depth up to 4
     # (a tree: every library is included from at most one place, a second inclusion would redefine its names)
     claimed = set()
@@ -41,7 +53,13 @@ def gen_case(rng, root, idx):
     for e in range(rng.randint(0, 3)):
         kind = rng.choice(["bin", "hex", "sexp"])
         owner = rng.choice([-1] + list(range(nlibs))) if nlibs else -1
-        embeds.append((owner, f"EMB{e}", kind, f"data{e}.{kind if kind != 'bin' else 'dat'}"))
+        fname = f"data{e}.{kind if kind != 'bin' else 'dat'}"
+        if embeds and rng.random() < 0.3:
+            prev = embeds[rng.randrange(len(embeds))]
+            cand = "more_" + prev[3]
+            if prev[2] == kind and all(cand != x[3] for x in embeds):
+                fname = cand
+        embeds.append((owner, f"EMB{e}", kind, fname))
     # place every lib and data file in 1..2 directories; a shadowed copy further down the path has
     # different contents (a different constant value), so a wrong resolution is observable
     placed = {}
@@ -58,6 +76,7 @@ def gen_case(rng, root, idx):
             for (owner, cname, kind, fname) in embeds:
                 if owner == k:
                     body.append(f"(embed-file {cname} {kind} {fname})")
+            os.makedirs(os.path.dirname(os.path.join(d, name)), exist_ok=True)
             with open(os.path.join(d, name), "w") as f:
                 f.write("(\n  " + "\n  ".join(body) + "\n)\n")
     for (owner, cname, kind, fname) in embeds:
@@ -88,6 +107,15 @@ def gen_case(rng, root, idx):
     with open(main, "w") as f:
         f.write("(mod (X)\n  " + "\n  ".join(forms) + f"\n  {body}\n)\n")
     return {"base": base, "main": main, "order": order, "sigil": sigil, "libs": libs, "edges": edges, "embeds": embeds, "placed": placed, "direct": direct}
+
+
+def rel_name(order, path):
+    """the name by which a file below one of the search directories is looked up (may contain a sub-directory)"""
+    for d in order:
+        dn = os.path.normpath(d) + os.sep
+        if os.path.normpath(path).startswith(dn):
+            return os.path.normpath(path)[len(dn):]
+    return os.path.basename(path)
 
 
 def first_match(order, name):
@@ -184,7 +212,7 @@ def judge(case, m, how):
             kind = "embedded" if any(os.path.basename(r) == e[3] for e in case["embeds"]) else "included"
             m["violations"].append(dict({"kind": "file_read_but_not_listed", "engine": "c18", "sig": "c18:embed-file-not-listed" if kind == "embedded" else None, "file": os.path.relpath(r, case["base"]), "file_kind": kind}, **ctx))
     for p in listed_norm:
-        name = os.path.basename(p)
+        name = rel_name(case["order"], p)
         fm = first_match(case["order"], name)
         if fm is None or os.path.normpath(fm) != p:
             bad = True
@@ -192,7 +220,7 @@ def judge(case, m, how):
         elif p not in reads:
             count("listed_but_not_read")
     for r in reads:
-        name = os.path.basename(r)
+        name = rel_name(case["order"], r)
         fm = first_match(case["order"], name)
         if fm is not None and os.path.normpath(fm) != r:
             bad = True
@@ -207,7 +235,7 @@ def stage(ctx):
     root = os.path.join(ctx["outroot"], "c18")
     shutil.rmtree(root, ignore_errors=True)
     os.makedirs(root)
-    n = 400 if ctx["thorough"] else 90
+    n = 1500 if ctx["thorough"] else 240
     from concurrent.futures import ThreadPoolExecutor
 
     def work(i):
